@@ -176,6 +176,19 @@ def array_cases(rec, hub, rng, tier, i):
                     continue
                 try:
                     judge_figure(rec, fd, plotter_name, chart, fig, arr, L, dims, xl, sl, ll, x_arr, sig)
+                    if chart == "line" and rng.random() < 0.35:
+                        # a second array drawn onto the existing figure: the new lines must carry the second array's entries
+                        vals2 = (4096.0 + rng.permutation(int(np.prod(dims.shape))) * 0.25).reshape(dims.shape)
+                        arr2 = fd.FlodymArray(dims=dims, values=vals2, name="second")
+                        kw2 = dict(kw, array=arr2, fig=fig)
+                        n_before = len(fig.data) if plotter_name == "plotly" else [len(ax.lines) for ax in fig.axes]
+                        rec.event(MA, sig=sig + "|onto-existing-figure", cls=f"{plotter_name}|second-array-on-existing-figure")
+                        try:
+                            fig2 = cls(**kw2).plot()
+                        except Exception as e:
+                            rec.violation(MA, f"array-plot:raised-when-adding-to-an-existing-figure:{plotter_name}", {"exc": f"{type(e).__name__}: {str(e)[:300]}", "roles": sig})
+                        else:
+                            judge_figure(rec, fd, plotter_name, chart, fig2, arr2, LArr.from_snap(Snap(arr2)), dims, xl, sl, ll, x_arr, sig + "|second", skip=n_before)
                 finally:
                     if plotter_name == "pyplot":
                         plt.close(fig)
@@ -188,7 +201,7 @@ def _norm(v):
         return str(v)
 
 
-def judge_figure(rec, fd, plotter_name, chart, fig, arr, L, dims, xl, sl, ll, x_arr, sig):
+def judge_figure(rec, fd, plotter_name, chart, fig, arr, L, dims, xl, sl, ll, x_arr, sig, skip=None):
     s_items = list(dims[sl].items) if sl else [None]
     l_items = list(dims[ll].items) if ll else [None]
     x_items = list(dims[xl].items)
@@ -196,14 +209,14 @@ def judge_figure(rec, fd, plotter_name, chart, fig, arr, L, dims, xl, sl, ll, x_
     # observed lines: list of (subplot index, name, x list, y list)
     obs = []
     if plotter_name == "plotly":
-        for tr in fig.data:
+        for tr in (fig.data if skip is None else fig.data[skip:]):
             ax = tr.xaxis or "x"
             idx = 0 if ax == "x" else int(ax[1:]) - 1
             obs.append((idx, str(tr.name), [_norm(v) for v in tr.x], [float(v) for v in tr.y]))
     else:
         for idx, ax in enumerate(fig.axes):
             if chart == "line":
-                for ln in ax.lines:
+                for ln in (ax.lines if skip is None else ax.lines[skip[idx]:]):
                     obs.append((idx, str(ln.get_label()), [_norm(v) for v in ln.get_xdata()], [float(v) for v in ln.get_ydata()]))
             else:
                 for col in ax.collections:
